@@ -9,36 +9,42 @@ def lookupT (f : File) (l : List (File × Task)) : Option Task := (l.find? (·.1
 
 theorem task_eq (s : St) (f : File) : s.task f = lookupT f s.tasks := rfl
 
+theorem lookupT_cons (f g : File) (u : Task) (l : List (File × Task)) :
+    lookupT f ((g, u) :: l) = if (g == f) = true then some u else lookupT f l := by
+  simp only [lookupT, List.find?_cons]
+  by_cases h : (g == f) = true <;> simp [h]
+
+theorem setTask_cons (f g : File) (t u : Task) (l : List (File × Task)) :
+    setTask f t ((g, u) :: l) = if (g == f) = true then (g, t) :: l else (g, u) :: setTask f t l := rfl
+
 theorem lookupT_setTask_same (f : File) (t : Task) (l : List (File × Task)) :
     lookupT f (setTask f t l) = some t := by
   induction l with
   | nil => simp [setTask, lookupT]
   | cons x l ih =>
     obtain ⟨g, u⟩ := x
-    unfold setTask
+    rw [setTask_cons]
     by_cases h : (g == f) = true
-    · simp [h, lookupT]
-    · simp only [h]
-      simp only [lookupT, List.find?_cons, h] at ih ⊢
-      exact ih
+    · rw [if_pos h, lookupT_cons, if_pos h]
+    · rw [if_neg h, lookupT_cons, if_neg h]; exact ih
 
 theorem lookupT_setTask_other (f g : File) (t : Task) (l : List (File × Task)) (h : g ≠ f) :
     lookupT g (setTask f t l) = lookupT g l := by
   induction l with
-  | nil => simp [setTask, lookupT, List.find?_cons, Ne.symm h]
+  | nil =>
+    have : ¬ (f == g) = true := by simpa using Ne.symm h
+    simp [setTask, this, lookupT]
   | cons x l ih =>
     obtain ⟨k, u⟩ := x
-    unfold setTask
+    rw [setTask_cons]
     by_cases hk : (k == f) = true
     · have hkf : k = f := by simpa using hk
-      have : (k == g) = false := by simp [hkf, Ne.symm h]
-      have h2 : (f == g) = false := by simp [Ne.symm h]
-      simp [hk, lookupT, List.find?_cons, this, h2]
-    · simp only [hk]
+      have hkg : ¬ (k == g) = true := by simpa [hkf] using Ne.symm h
+      rw [if_pos hk, lookupT_cons, if_neg hkg, lookupT_cons, if_neg hkg]
+    · rw [if_neg hk, lookupT_cons, lookupT_cons]
       by_cases hg : (k == g) = true
-      · simp [lookupT, List.find?_cons, hg]
-      · simp only [lookupT, List.find?_cons, hg] at ih ⊢
-        exact ih
+      · rw [if_pos hg, if_pos hg]
+      · rw [if_neg hg, if_neg hg]; exact ih
 
 @[simp] theorem set_task_same (s : St) (f : File) (t : Task) : (s.set f t).task f = some t :=
   lookupT_setTask_same f t s.tasks
@@ -57,20 +63,24 @@ def holdsOpt : Option Task → Nat
   | some t => if t.holds then 1 else 0
   | none => 0
 
+theorem holdersL_cons (g : File) (u : Task) (l : List (File × Task)) :
+    holdersL ((g, u) :: l) = (if u.holds then 1 else 0) + holdersL l := by
+  simp only [holdersL, List.filter_cons]
+  cases u.holds <;> simp <;> omega
+
 theorem holdersL_setTask (f : File) (t : Task) (l : List (File × Task)) :
     holdersL (setTask f t l) + holdsOpt (lookupT f l) = holdersL l + (if t.holds then 1 else 0) := by
   induction l with
-  | nil => simp [setTask, holdersL, lookupT, holdsOpt]; split <;> simp_all
+  | nil =>
+    show holdersL [(f, t)] + holdsOpt (lookupT f []) = holdersL [] + _
+    rw [holdersL_cons]; simp [holdersL, lookupT, holdsOpt]
   | cons x l ih =>
     obtain ⟨g, u⟩ := x
-    unfold setTask
+    rw [setTask_cons, lookupT_cons]
     by_cases h : (g == f) = true
-    · simp only [h, ite_true, lookupT, List.find?_cons, Option.map_some, holdsOpt, holdersL, List.filter_cons]
-      cases t.holds <;> cases u.holds <;> simp <;> omega
-    · simp only [h]
-      simp only [lookupT, List.find?_cons, h] at ih ⊢
-      simp only [holdersL, List.filter_cons] at ih ⊢
-      cases u.holds <;> simp at ih ⊢ <;> omega
+    · rw [if_pos h, if_pos h, holdersL_cons, holdersL_cons]
+      simp only [holdsOpt]; omega
+    · rw [if_neg h, if_neg h, holdersL_cons, holdersL_cons]; omega
 
 theorem holders_set (s : St) (f : File) (t : Task) :
     holders (s.set f t) + holdsOpt (s.task f) = holders s + (if t.holds then 1 else 0) :=
